@@ -588,3 +588,46 @@ pub open spec fn nz_set_iter_of(s: Seq<&Tid>, set: Set<Tid>) -> bool {
     &&& forall |i: int| 0 <= i < s.len() ==> set.contains(*#[trigger] s[i])
     &&& forall |k: Tid| set.contains(k) ==> exists |i: int| 0 <= i < s.len() && *#[trigger] s[i] == k
 }
+
+pub open spec fn nz_resfx_blks(l0: Seq<Term<Blk>>, l1: Seq<Term<Blk>>, f: Tid, home: Map<Tid, Tid>) -> bool {
+    &&& l1.len() == l0.len()
+    &&& forall |i: int| 0 <= i < l0.len() ==> nz_resfx_blk(l0[i], #[trigger] l1[i], f, home)
+}
+
+/// function `s1` is function `s0` after make_block_to_sub_mapping_unique: the listed blocks, then (in some order, each once) the
+/// suffixed copies of the blocks contained in `s0` that are not at home there; in ALL of them the block tids named by jumps,
+/// returns and hints are redirected to the copies (rule nz_fix)
+pub open spec fn nz_uniq_sub(s0: Term<Sub>, s1: Term<Sub>, contained: Set<Tid>, home: Map<Tid, Tid>, bm: Map<Tid, &Term<Blk>>) -> bool {
+    &&& s1.tid == s0.tid
+    &&& s1.term.name == s0.term.name
+    &&& s1.term.calling_convention == s0.term.calling_convention
+    &&& exists |add: Seq<Term<Blk>>| #[trigger] nz_additional_ok(add, contained, s0.tid, home, bm)
+            && nz_resfx_blks(s0.term.blocks@ + add, s1.term.blocks@, s0.tid, home)
+}
+
+/// make_block_to_sub_mapping_unique, in terms of: `home` (term tid -> tid of its function), `bm` (block tid -> block),
+/// `sm` (function tid -> set of the block tids contained in the function)
+pub open spec fn nz_uniq_shape(subs0: Map<Tid, Term<Sub>>, subs1: Map<Tid, Term<Sub>>, home: Map<Tid, Tid>, bm: Map<Tid, &Term<Blk>>, sm: Map<Tid, HashSet<Tid>>) -> bool {
+    &&& subs1.dom() =~= subs0.dom()
+    &&& forall |k: Tid| #[trigger] subs0.contains_key(k) ==> nz_uniq_sub(subs0[k], subs1[k], sm[subs0[k].tid]@, home, bm)
+}
+
+/// PRECONDITION of make_block_to_sub_mapping_unique (else `block_tid_to_block_map.get(block_tid).unwrap()` panics): every tid a
+/// block names (branch target, return target, hint) is the tid of a block of the program
+pub open spec fn nz_names_closed(subs: Map<Tid, Term<Sub>>) -> bool {
+    forall |k: Tid, i: int, u: Tid| #[trigger] nz_blk_at(subs, k, i, subs[k].term.blocks@[i].tid) && #[trigger] nz_names(subs[k].term.blocks@[i], u) ==> nz_is_blk(subs, u)
+}
+
+/// THE POSTCONDITION of make_block_to_sub_mapping_unique
+pub open spec fn nz_uniq_post(prog: Tid, subs0: Map<Tid, Term<Sub>>, subs1: Map<Tid, Term<Sub>>) -> bool {
+    exists |home: Map<Tid, Tid>, bm: Map<Tid, &Term<Blk>>, sm: Map<Tid, HashSet<Tid>>|
+        nz_home_ok(home, prog, subs0) && nz_blkmap_ok(bm, subs0) && nz_submap_ok(sm, subs0, bm) && #[trigger] nz_uniq_shape(subs0, subs1, home, bm, sm)
+}
+
+/// loop of make_block_to_sub_mapping_unique: function `s1` is `s0` with the additional blocks `add` appended
+pub open spec fn nz_appended(s0: Term<Sub>, s1: Term<Sub>, add: Seq<Term<Blk>>) -> bool {
+    &&& s1.tid == s0.tid
+    &&& s1.term.name == s0.term.name
+    &&& s1.term.calling_convention == s0.term.calling_convention
+    &&& s1.term.blocks@ =~= s0.term.blocks@ + add
+}
